@@ -128,7 +128,7 @@ pub fn run(ctx: &Ctx, st: &mut Stats) {
         assert_eq!(crate::cal::weekday_sun0(n) as usize, i % 7, "NAME_PROBES must walk through the weekdays");
     }
     // 1. every string up to length L over the alphabet
-    let maxlen = ctx.tier.pick(2, 4, 5);
+    let maxlen = ctx.tier.pick(2, 4, if ctx.light { 5 } else { 6 });
     let a = ALPHABET.len() as i64;
     for len in 0..=maxlen {
         let total = a.pow(len as u32);
@@ -187,7 +187,7 @@ pub fn run(ctx: &Ctx, st: &mut Stats) {
         }
     }
     // 4. random sequences of documented tokens (random letter case), up to 40 tokens
-    let n = ctx.tier.pick(300, 300_000, 6_000_000);
+    let n = ctx.tier.pick(300, 300_000, ctx.big(6_000_000, 60_000_000));
     ctx.par(st, "grammar/random-token-sequences", false, 0, n, |st, _, rng| {
         let k = match rng.below(10) {
             0 => 35 + rng.below(4) as usize,
@@ -212,7 +212,7 @@ pub fn run(ctx: &Ctx, st: &mut Stats) {
         st.eval_h(hash64(p.as_bytes()), &C(&p), check);
     });
     // 5. random strings (printable ASCII + some multi-byte), panic boundary + rejection
-    let n = ctx.tier.pick(200, 200_000, 3_000_000);
+    let n = ctx.tier.pick(200, 200_000, ctx.big(3_000_000, 20_000_000));
     ctx.par(st, "random/strings", false, 0, n, |st, _, rng| {
         let len = if rng.chance(1, 50) { rng.below(2000) as usize } else { rng.below(24) as usize };
         let mut p = String::new();
